@@ -39,6 +39,7 @@ var (
 //@   requires okP(p)
 //@   ensures [parser-ok] okP(p) && p.tk == old(p.tk)
 //@   ensures [tokens-shift] p.prevToken == old(p.curToken) && p.curToken == old(p.peekToken)
+//@   no-template
 //@   ensures [peek-is-a-located-token] p.peekToken != nil && p.peekToken.Token.Type != "" && p.peekToken.Token.Line >= 1
 
 //@ func (*Parser).ParseVCLOrSnippet [C01]
@@ -46,12 +47,27 @@ var (
 //@   ensures [tree-or-error C01] err == nil ==> result != nil
 //@   assigns heap
 
+//@ func (*Parser).registerExpressionParsers [C01]
+//@   no-template
+//@   safe
+//@   requires p != nil
+//@   assigns p.prefixParsers, p.infixParsers, p.postfixParsers
+
+// (the constructor starts without current/peek tokens: the method template does not apply)
 //@ func New [C01]
+//@   no-template
+//@   safe
+//@   requires nonnil(tk) && okL(tk.(*lexer.Lexer)) && okPeeks(tk.(*lexer.Lexer)) && okCustoms(tk.(*lexer.Lexer)) && tk.(*lexer.Lexer).customs != nil
 //@   ensures [non-nil C01] result != nil && fresh(result)
 //@   assigns heap
 
 // the sweep: no reachable panic anywhere in the package
+// ... and every parser method keeps the parser well-formed: same tokenizer, lexer invariants,
+// current and peek tokens present (so the next method can be called)
 //@ forall-funcs .* [C01]
 //@   requires? okP(p)
 //@   requires? p.curToken != nil && p.peekToken != nil
+//@   ensures? [parser-stays-ok] okP(p) && p.tk == old(p.tk) && p.curToken != nil && p.peekToken != nil
+//@   ensures? [tree-or-error] err == nil ==> nonnil(result)
+//@   loop * invariant? okP(p) && p.tk == old(p.tk) && p.curToken != nil && p.peekToken != nil
 //@   safe
